@@ -119,14 +119,41 @@ def http_case(rng):
     else:
         wire = (b'HTTP/1.1 200 OK\r\nTransfer-Encoding: chunked\r\n\r\n' + rng.choice([b'FFFFFFFFFFFFFFFFFFFF', b'-5', b'1g', b'', b' ']) +
                 b'\r\nxx\r\n0\r\n\r\n')
-    return {'entry': 'http', 'wire': wire, 'method': r['method'], 'seg_seed': rng.randrange(1 << 30), 'kind': kind}
+    if rng.random() < 0.15:
+        # declared sizes that lie (the progress printers and the recorder compute with them)
+        kind = 'declared-size'
+        wire = rng.choice(DECLARED_SIZES)
+    return {'entry': 'http', 'wire': wire, 'method': r['method'], 'seg_seed': rng.randrange(1 << 30), 'kind': kind,
+            # what a crawl hangs on its client: WARC recorder (--warc-file), progress bar / dots (terminal output)
+            'listeners': rng.choice([[], [], ['warc'], ['bar'], ['dot'], ['warc', 'bar']])}
+
+
+DECLARED_SIZES = [
+    b'HTTP/1.1 200 OK\r\nContent-Length: 0\r\nTransfer-Encoding: chunked\r\n\r\n5\r\nhello\r\n0\r\n\r\n',
+    b'HTTP/1.1 206 Partial Content\r\nContent-Range: bytes 0-4/0\r\nContent-Length: 5\r\n\r\nhello',
+    b'HTTP/1.1 206 Partial Content\r\nContent-Range: bytes 0-0/0\r\nTransfer-Encoding: chunked\r\n\r\n5\r\nhello\r\n0\r\n\r\n',
+    b'HTTP/1.1 206 Partial Content\r\nContent-Range: bytes */*\r\nContent-Length: 5\r\n\r\nhello',
+    b'HTTP/1.1 206 Partial Content\r\nContent-Range: bytes 9-1/x\r\nContent-Length: 5\r\n\r\nhello',
+    b'HTTP/1.1 206 Partial Content\r\nContent-Range: garbage\r\nContent-Length: 5\r\n\r\nhello',
+    b'HTTP/1.1 200 OK\r\nContent-Length: 00000\r\nTransfer-Encoding: chunked\r\n\r\n5\r\nhello\r\n0\r\n\r\n',
+    b'HTTP/1.1 200 OK\r\nContent-Length: 1\r\nTransfer-Encoding: chunked\r\n\r\n' + b'400\r\n' + b'x' * 1024 + b'\r\n0\r\n\r\n',
+    b'HTTP/1.1 200 OK\r\nContent-Length: 99999999999999999999999\r\nConnection: close\r\n\r\nhello',
+    b'HTTP/1.1 200 OK\r\nContent-Length: -0\r\nTransfer-Encoding: chunked\r\n\r\n5\r\nhello\r\n0\r\n\r\n',
+    b'HTTP/1.1 200 OK\r\nContent-Length: 0\r\nContent-Encoding: gzip\r\nTransfer-Encoding: chunked\r\n\r\n5\r\nhello\r\n0\r\n\r\n',
+    b'HTTP/1.1 206 Partial Content\r\nContent-Range: bytes 0-4/5\r\nContent-Length: 0\r\nTransfer-Encoding: chunked\r\n\r\n5\r\nhello\r\n0\r\n\r\n',
+]
 
 
 def run_http(case, part):
     from harness import httpdrive
     rng = random.Random(case['seg_seed'])
     responses = [{'pieces': random_pieces(rng, case['wire']), 'then': 'eof', 'method': case['method']}]
-    outcomes, peer, net = httpdrive.run_sequence(responses)
+    setup = None
+    if case.get('listeners'):
+        from harness import listeners
+        setup = lambda client: listeners.attach(client, case['listeners'], 'http')
+        part.count('http_cases_with_listeners_' + '+'.join(case['listeners']))
+    outcomes, peer, net = httpdrive.run_sequence(responses, recorder_setup=setup)
     o = outcomes[0]
     if o['error'] == 'STALL':
         part.violation('http/stall', {'wire': case['wire'][:200]}, case)
@@ -465,7 +492,8 @@ def ftp_case(rng):
         # (a 70 000 byte token inside a LIST line takes ~110 s in the date heuristics of the listing parser: slow, but
         # it ends and raises nothing, so it is outside this property; capped to keep the run time bounded)
         value = value[:6000]
-    return {'entry': 'ftp', 'target': target, 'value': value, 'listing': listing, 'seg_seed': rng.randrange(1 << 30)}
+    return {'entry': 'ftp', 'target': target, 'value': value, 'listing': listing, 'seg_seed': rng.randrange(1 << 30),
+            'listeners': rng.choice([[], [], ['warc'], ['warc'], ['bar'], ['dot'], ['warc', 'bar']])}
 
 
 def run_ftp(case, part):
@@ -489,7 +517,15 @@ def run_ftp(case, part):
     else:
         script.replies[t.upper()] = [v]
     script.segment = lambda b: random_pieces(rng, b)
-    res = c17_ftp.run_session('ftp://f.test/dir/' + ('' if case['listing'] else 'file.bin'), script, listing=case['listing'])
+    setup = None
+    if case.get('listeners'):
+        from harness import listeners
+        setup = lambda client: listeners.attach(client, case['listeners'], 'ftp')
+        part.count('ftp_cases_with_listeners_' + '+'.join(case['listeners']))
+    res = c17_ftp.run_session('ftp://f.test/dir/' + ('' if case['listing'] else 'file.bin'), script, listing=case['listing'],
+                              client_setup=setup)
+    if res.get('teardown_error') is not None:
+        judge_exception('ftp-recorder-close', res['teardown_error'], part, case, {'target': t})
     if res.get('error') == 'STALL':
         part.count('ftp_stall_waiting_for_more_bytes')
         return
